@@ -37,6 +37,9 @@ type c19Case struct {
 	// CrossFS: the destination lies on another file system than the process's
 	// temporary directory
 	CrossFS bool `json:"crossfs,omitempty"`
+	// Reject: the receiver's Filter turns these down (unselected regular files
+	// without link relations): they were announced, so the listing records them
+	Reject []string `json:"reject,omitempty"`
 }
 
 var c19TreeCfg = h.TreeCfg{
@@ -134,6 +137,21 @@ func genC19(t *rapid.T) *c19Case {
 		c.DstMeta = "file"
 	}
 	c.Capacity = rapid.SampledFrom([]int{0, 1, 8, 64}).Draw(t, "cap")
+	if rapid.IntRange(0, 2).Draw(t, "reject") == 0 && (c.Dst == nil || len(c.Dst.Nodes) == 0) {
+		// (fresh destinations only: what a rejecting filter means for old entries of the
+		// same name is not part of the statement)
+		linked := map[string]bool{}
+		for _, n := range c.Tree.Nodes {
+			if n.LinkTo != "" {
+				linked[n.Path], linked[n.LinkTo] = true, true
+			}
+		}
+		for _, n := range c.Tree.Nodes {
+			if n.Kind == h.KFile && !linked[n.Path] && n.Path != listingName && !selOrig(c, n.Path) && rapid.IntRange(0, 1).Draw(t, "rej."+n.Path) == 0 {
+				c.Reject = append(c.Reject, n.Path)
+			}
+		}
+	}
 	// (only with attribute values any file system can hold)
 	if rapid.IntRange(0, 5).Draw(t, "crossfs") == 0 && c.BigXattr == 0 && smallXattrs(c.Tree) && smallXattrs(c.Dst) {
 		c.CrossFS = true
@@ -204,12 +222,25 @@ func c19Check(env *h.Env, c *c19Case) error {
 	for _, p := range c.Selected {
 		sel[p] = true
 	}
+	rejected := map[string]bool{}
+	for _, p := range c.Reject {
+		rejected[p] = true
+		if sel[p] {
+			env.Class("selected-entry-turned-down-by-the-filter")
+		}
+		delete(sel, p) // for everything but the listing it is as if it had not been selected
+	}
 	var nl h.NotifyLog
 	opt := fsutil.ReceiveOpt{
 		Merge:         c.Merge,
 		NotifyHashed:  nl.Fn,
 		ContentHasher: h.Hasher,
-		MetadataOnly:  func(p string, st *types.Stat) bool { return sel[filepath.ToSlash(p)] },
+		MetadataOnly: func(p string, st *types.Stat) bool {
+			return sel[filepath.ToSlash(p)] || rejected[filepath.ToSlash(p)] && selOrig(c, filepath.ToSlash(p))
+		},
+	}
+	if len(c.Reject) > 0 {
+		opt.Filter = func(p string, st *types.Stat) bool { return !rejected[filepath.ToSlash(p)] }
 	}
 	res := h.RunSync(f, dstDir, h.SyncOpt{Capacity: c.Capacity, Recv: opt})
 	if res.Stuck != "" {
@@ -457,4 +488,13 @@ func smallXattrs(t *h.Tree) bool {
 		}
 	}
 	return true
+}
+
+func selOrig(c *c19Case, p string) bool {
+	for _, q := range c.Selected {
+		if q == p {
+			return true
+		}
+	}
+	return false
 }
